@@ -101,6 +101,27 @@ Definition ev_eqb (a b : ev) : bool :=
   | ESecIns x, ESecIns y | ESecDel x, ESecDel y => t3eqb x y
   | _, _ => false
   end.
+(* the emitted statement against the static one.  Tolerated: an INSERT / a regular UPDATE that also carries a
+   post_update column with its final value (the process step set the attribute before the row was saved; the
+   separate post_update UPDATE follows anyway), and any content of the UPDATE of post_update columns of a row
+   that is deleted in the same flush (what is written there is checked by executing the trace only) *)
+Definition extra_ins (g : graph) (r : N) (x : N * N) : bool :=
+  postcol g (fst x) && opt_eqb (ref_get (g_ref1 g) r (fst x)) (Some (snd x)).
+Definition extra_upd (g : graph) (r : N) (x : N * option N) : bool :=
+  postcol g (fst x) && opt_eqb (ref_get (g_ref1 g) r (fst x)) (snd x).
+Definition stmt_matches (g : graph) (e : ev) (b : stmt) : bool :=
+  match e, stmt_of g e, b with
+  | EPost s, Update r u, Update r' u' =>
+      if N.eqb (role_of g s) 2 then N.eqb r r' else stmt_eqb (Update r u) (Update r' u')
+  | _, Insert r m v, Insert r' m' v' =>
+      N.eqb r r' && N.eqb m m' && incl_b pair_eqb v v' &&
+      forallb (fun x => existsb (pair_eqb x) v || extra_ins g r x) v'
+  | ESave _, Update r u, Update r' u' =>
+      N.eqb r r' && incl_b set_eqb u u' && forallb (fun x => existsb (set_eqb x) u || extra_upd g r x) u'
+  | _, a, _ => stmt_eqb a b
+  end.
+Definition counted (g : graph) (e : ev) : bool :=
+  match e with EPost s => negb (N.eqb (role_of g s) 2) | _ => true end.
 Definition trivial_stmt (s : stmt) : bool := match s with Update _ [] => true | _ => false end.
 
 (* input  L [deps; states; links; ref0; ref1; sec0; sec1; notnull; trace; I mode]
@@ -135,8 +156,8 @@ Definition run_with (T : tables) (t : tree) : tree :=
             let hs := fun e => homes g cy e ++ match e with EPost s => homes g cy (ESave s) | _ => [] end in
             let acc := accept layers hs O evs in
             let ex := match exec nn (db0 g) (map snd tr) with Some _ => true | None => false end in
-            let mism := length (filter (fun it => negb (stmt_eqb (stmt_of g (fst it)) (snd it))) tr) in
-            let missing := length (filter (fun e => negb (trivial_stmt (stmt_of g e)) && negb (existsb (ev_eqb e) evs))
+            let mism := length (filter (fun it => negb (stmt_matches g (fst it) (snd it))) tr) in
+            let missing := length (filter (fun e => counted g e && negb (trivial_stmt (stmt_of g e)) && negb (existsb (ev_eqb e) evs))
                                           (events g)) in
             let hyp := wf g && consistent g && cyc_ok g cy && managed g cy in
             L (I 0 :: head ++ [of_bool acc; of_bool ex;
